@@ -6,6 +6,8 @@
                        prepare, U<t>:<f> its PUT, D<t>:<f> its DELETE (f = 1: fail)
                        -> ACC B <main>:<items>;... R <t>=<res>,... I <keys> | REJECT <i>
    K <bits>            SetReferrersCapability sequence -> K <state>/<err>,...
+   X <sg> <init> <changes> <ev> ...  exchanges of an end-to-end run on one tag -> ACC R .. I .. | REJECT <i>
+   D <kind> <art> <cfg>  indexReferrersForPush artifact type -> D <type>
    E <n>               end-to-end run (judged by the oracle)   -> E <n>
    descriptor = k:a:p, list = "-" | d,d,...   change = +d | ~d *)
 let parse_desc (s : string) : desc =
@@ -160,6 +162,9 @@ let () =
       let rs = set_caps CapUnknown bs in
       Printf.printf "%s K %s\n" id
         (String.concat "," (List.map (fun (s, e) -> Printf.sprintf "%d/%d" (cap_num s) (if e then 1 else 0)) rs))
+    | [id; "D"; k; a; c] ->
+      let kind = (match k with "artifact" -> KArtifact | "index" -> KIndex | _ -> KImage) in
+      Printf.printf "%s D %d\n" id (int_of_n (referrer_art kind (n_of_int (int_of_string a)) (n_of_int (int_of_string c))))
     | [id; "E"; n] -> Printf.printf "%s E %s\n" id n
     | [] -> ()
     | _ -> Printf.printf "BADLINE %s\n" l)
